@@ -321,7 +321,7 @@ func vfRecordMatchesMsg(rec *vfsRecord, i int, run *vfProdRun) string {
 		}
 	}
 	if spec.HasTs && rec.Magic >= 1 && !rec.LogAppend {
-		want := (1500000000+int64(i))*1000 + int64(i%1000)
+		want := (1500000000+int64(spec.TsOff))*1000 + int64(i%1000)
 		if rec.TsMs != want {
 			return fmt.Sprintf("timestamp %d != supplied %d", rec.TsMs, want)
 		}
